@@ -747,7 +747,11 @@ def b_round(interp, args, kwargs, node):
         p = None
     else:
         p = args[1]
-    if node is not None and len(getattr(node, 'args', [])) > 1 and is_internal_precision(node):
+    ip_ = interp.cfg.data.get('internal_precision', 10) if hasattr(interp.cfg, 'data') else 10
+    # A2 applies to a rounding to the INTERNAL precision, however the code spells that argument (the literal attribute, a
+    # local holding it, ...): recognised by value (the display precisions are 0..3, the internal one is 10)
+    if (node is not None and len(getattr(node, 'args', [])) > 1 and is_internal_precision(node)) or \
+            (isinstance(p, int) and not isinstance(p, bool) and p == ip_ and p > 6):
         if interp.__dict__.get('round_mode') == 'error' and not isinstance(x, (list, dict, str)):
             # rounding-placement mode (contracts/rounding_placement.py): the result is SOME number within half a unit of
             # the last internal digit of x — where the library rounds then matters, as it does in IEEE arithmetic
